@@ -87,6 +87,9 @@ FChain == (kind = "Chain") =>
           /\ snap.calls[j][3] = ShouldUpdate(snap.calls[j][1], snap.calls[j][2])
     /\ snap.final = CurAfter(snap.init, snap.calls, Len(snap.calls))
     /\ Len(snap.calls) = snap.writes              \* every write of a resident key consults the validator exactly once
+    \* the writes switch the key between TTL and no TTL: replacement and re-filing are one critical section, so the
+    \* expiration index matches the resident entries afterwards (IndexExact of Cache.tla)
+    /\ { <<x[1], x[2]>> : x \in Range(snap.em) } = { <<StorageBucket(e.at, e.d), e.i>> : e \in { y \in Range(snap.store) : y.d > 0 } }
 \* C17, PARALLEL lookups: Get of Cache.tla adds exactly one to hit or to miss, atomically, whatever other clients do
 \* C15, the same lookups: each is recorded in the lookup ring and leaves it in exactly one batch, which is counted as kept
 \* or as dropped (Ring.tla's accounting, under parallel pushes into one stripe)
